@@ -297,13 +297,13 @@ Qed.
 Lemma insert_tail_ok c now pg d f s1 dbk raw exp tag sd l :
   Winv d -> (forall g, f = Some g -> ~ In g (refs d)) ->
   Winv s1 -> refs s1 = refs d -> rows s1 = rows d -> fid_ok s1 f (s_size sd) ->
-  (forall r, In r (rows s1) -> key_match dbk (b2z raw) r = false) -> sv_wf dbk = true ->
+  (forall r, In r (rows s1) -> key_match dbk (b2z raw) r = false) -> sv_wf dbk = true -> key_nonnull dbk = true ->
   let s2 := t_insert (columns_insert dbk raw now exp tag sd f) s1 in
   Permutation (somes l) (somes (snd (cull c now pg s2))) ->
   forall r, out_ok d f (ok_out (fst (cull c now pg s2)) l None r).
 Proof.
-  intros W Hf W1 R1 Rw Fok Hk Hw s2 Hl r.
-  destruct (pinv_columns_insert s1 _ dbk raw now exp tag sd f (winv_pinv s1 W1) Hk Hw Fok) as [H2 [Rf2 _]]. fold s2 in H2, Rf2.
+  intros W Hf W1 R1 Rw Fok Hk Hw Hnn s2 Hl r.
+  destruct (pinv_columns_insert s1 _ dbk raw now exp tag sd f (winv_pinv s1 W1) Hk Hw Hnn Fok) as [H2 [Rf2 _]]. fold s2 in H2, Rf2.
   destruct (cull c now pg s2) as [s3 cl2] eqn:C. cbn [fst snd] in *.
   destruct (pinv_cull c now pg s2 _ s3 cl2 C H2) as [H3 [Pm _]].
   apply out_ok_conserve; cbn [ok_out bo_db bo_early bo_cleanup bo_fetch]; auto.
@@ -345,6 +345,7 @@ Proof.
     destruct (cull c now pg _) as [s3 cl2] eqn:C. cbn [fst snd] in Tl. apply Tl; auto.
     + intros r I. eapply filter_nil_none; eauto.
     + eapply put_wf; eauto.
+    + eapply put_key_nonnull; eauto.
   - apply filter_cons_in in F as [I0 _].
     pose proof (update_tail_ok c now pg d f s1 r0 (expire_at now e) tag sd) as Tl. cbv zeta in Tl.
     destruct (cull c now pg _) as [s3 cl2] eqn:C. cbn [fst snd] in Tl. apply Tl; auto.
@@ -364,6 +365,7 @@ Proof.
     destruct (cull c now pg _) as [s3 cl2] eqn:C. cbn [fst snd] in Tl. apply Tl; auto.
     + intros r I. eapply filter_nil_none; eauto.
     + eapply put_wf; eauto.
+    + eapply put_key_nonnull; eauto.
   - apply filter_cons_in in F as [I0 _]. destruct (add_live _ _).
     + apply out_ok_conserve; cbn [ok_out bo_db bo_early bo_cleanup bo_fetch]; auto; [discriminate|].
       rewrite R1. cbn [somes flat_map ofile]. rewrite !app_nil_r. apply Permutation_app_comm.
@@ -469,6 +471,7 @@ Proof.
     - pose proof (insert_tail_ok c now pg d None d dbk raw None SNull sd) as Tl. cbv zeta in Tl.
       destruct (cull c now pg _) as [s3 cl2] eqn:C. cbn [fst snd] in Tl. apply Tl; auto.
       + eapply put_wf; eauto.
+      + eapply put_key_nonnull; eauto.
       + rewrite app_nil_r. apply Permutation_refl. }
   rewrite bridge_incr_select. destruct (filter _ (rows d)) as [|r0 rs] eqn:F.
   - apply (Fr None). intros r I. eapply filter_nil_none; eauto.
